@@ -144,6 +144,15 @@ PROPS = {
         "partial": "IEEE-754 rounding inside from_geo/as_geo_bbox is tested, not proved; release-profile wrap-around of overflowing u32 arithmetic is not modelled (dev-profile overflow panics are)",
         "assumptions": ["boxes are observed through the public fields of TileBBox; levels <= 31"],
     },
+    "C17": {
+        "cmd": "c17",
+        "theorems": ["C17_gen_hex_escape_checked", "C17_string_roundtrip", "C17_value_roundtrip"],
+        "nontrivial": lambda l: bool(re.search(r"\b(34|92|1?[0-9]|2[0-9]|3[01]|12[7-9]|1[3-5][0-9])\b", l.split(" => ")[0].split(" ", 1)[-1])) or "err" in l,
+        "rule": "strings: every code point 0..256 alone plus seeded random strings (quotes, backslashes, all control classes, BMP edge cases, non-BMP) are quoted by the implementation and by the Coq model (json.quote lines), parsed back, and read by an independent strict RFC 8259 parser written for the harness; json.pstr lines feed arbitrary (mostly malformed: bad \\u windows, lone surrogates, unterminated) quoted strings to parse_quoted_json_string and the model; json.val lines parse stringified random values (nesting <= 3, finite f64 incl. subnormals/1e300/-0, objects with arbitrary keys) with both; TileJSON through 4 container formats is part of the C01 harness, served tiles.json of the C05 harness. non-trivial = the input contains a character that needs escaping, or the outcome is an error",
+        "level_text": "Proved in Coq: for every list of Unicode scalar values parse(quote(escape s)) = s (all nine escape cases, \\u00XX for every control character by arithmetic on the hex digits); for every JSON value (unbounded nesting and width, numbers as f64 Display prints them, arbitrary object keys) parse(stringify v) = v, by induction over values with the parser's whitespace skipping and separators. The model is tied to the code by comparing quote / parse_quoted_json_string / parse on thousands of generated and malformed texts, the \\u window handling is regenerated from the source; an independent strict parser confirms the output is standard JSON with the same meaning.",
+        "level_note": "Trusted: Coq kernel; model coq/Model/Json.v over scalar values (the byte-level parser only inspects ASCII bytes; validated for all BMP + sampled astral characters); f64 Display/FromStr round trip and shape are Rust std guarantees (tested on generated floats, not modelled); BTreeMap key ordering (canonicalised in the driver); extraction + driver; harness with its own strict JSON parser. Print Assumptions: closed.",
+        "partial": "f64 printing/parsing; TileJSON field mapping (from_object/as_object, narrowing) is tested through containers, not modelled",
+    },
     "C20": {
         "cmd": "c20",
         "level_text": "All four clauses are Coq theorems over every capacity and every operation history (induction over the history, no bound): capacity + no duplicate keys, provenance of returned values, get_or_set semantics, and survival of a just-used entry at the next eviction for every capacity >= 2 (capacity 1 is proved impossible for any cache). The model is tied to the code by regenerating the median index from limited_cache.rs and by running >100k histories (exhaustive small scope + random long ones) on LimitedCache and on the extracted model, comparing every returned value, the length and the stamp counter.",
